@@ -21,6 +21,9 @@ from ..lin import linearise, product_factors, peel
 S = 'pb_bss.evaluation.sxr_module::'
 
 
+from . import c20
+
+
 def check_ratios(run, A):
     for name in ('input_sxr', 'output_sxr'):
         q = S + name
@@ -631,6 +634,7 @@ def check(run):
     check_selection(run, A)
     check_return_dict(run, A)
     check_same_postprocessing(run, A)
+    c20.check_mutable_defaults(run, A, ('pb_bss.evaluation.',))          # a result dict that is shared between calls is not the result of one call
     check_si_sdr(run, A)
     check_snr(run, A)
     check_power_helper(run, A)
